@@ -382,6 +382,21 @@ def gen_com(rng, k):
     n = rng.randint(1, 10)
     pbc = [bool(k & 1), bool(k & 2), bool(k & 4)]
     pos = gen_positions(rng, cell, n)
+    if k % 5 == 4 and any(pbc):
+        # nearly balanced: equal atoms in pairs half a period (plus a small offset) apart along the cell vectors, so that the
+        # mean resultant of the circular mean is small but not zero (1e-4 .. 1e-2 of the total mass)
+        fc = fmat(cell)
+        z = rng.choice(SPECIES)
+        pos, nums = [], []
+        for _ in range(rng.randint(1, 4)):
+            s0 = [Fr(rng.randint(0, 64), 64) for _ in range(3)]
+            dlt = [Fr(1, 2) + Fr(rng.choice([1, 2, 5, 10, 20, 40]), 10000) for _ in range(3)]
+            pos.append([float(x) for x in to_cart_x(fc, s0)])
+            pos.append([float(x) for x in to_cart_x(fc, [a + b for a, b in zip(s0, dlt)])])
+            nums += [z, z]
+        shifts = [[(rng.randint(-3, 3) if pbc[i] else 0) for i in range(3)] for _ in range(len(pos))]
+        return {"fn": "com", "cell": cell, "positions": pos, "numbers": nums, "pbc": pbc, "shifts": shifts,
+                "translate": [dy(rng, -6, 6) for _ in range(3)], "class": kind + "+nearly-balanced"}
     shifts = [[(rng.randint(-3, 3) if pbc[i] else 0) for i in range(3)] for _ in range(n)]
     return {"fn": "com", "cell": cell, "positions": pos, "numbers": [rng.choice(SPECIES) for _ in range(n)], "pbc": pbc,
             "shifts": shifts, "translate": [dy(rng, -6, 6) for _ in range(3)], "class": kind}
@@ -423,6 +438,8 @@ def predicate(c, r):
     if fn == "frame":
         if not finite([r["rt_cart"], r["rt_scaled"]]):
             return ["non-finite output"]
+        if r.get("inplace_edit_ok") is False:
+            bad.append("to_scaled/to_cartesian answer for the OLD values after the caller edited the same cell / position arrays in place")
         if not lclose(c["positions"], r["rt_cart"]):
             bad.append("to_cartesian(to_scaled(p)) != p")
         if not lclose(c["scaled"], r["rt_scaled"]):
@@ -578,12 +595,15 @@ def com_predicate(c, r):
         return ["non-finite output"]
     fc = fmat(c["cell"])
     pbc = [bool(x) for x in c["pbc"]]
-    ok_axis = [(not pbc[i]) or r["resultant_rel"][i] >= 1e-2 for i in range(3)]
+    # the circular mean is equivariant whenever the resultant is non-zero; numerically its error grows like eps / resultant:
+    # axes are skipped only below 1e-6, and the tolerance is widened in proportion below 1e-2
+    ok_axis = [(not pbc[i]) or r["resultant_rel"][i] >= 1e-6 for i in range(3)]
+    widen = [1.0 if not pbc[i] else max(1.0, 1e-2 / max(r["resultant_rel"][i], 1e-6)) for i in range(3)]
     lim = 1e-9
     if "com_shifted" in r:
         ds = to_scaled_x(fc, [F(a) - F(b) for a, b in zip(r["com_shifted"], r["com"])])
         for i in range(3):
-            if ok_axis[i] and abs(float(ds[i] - round(ds[i]))) > lim * 10:
+            if ok_axis[i] and abs(float(ds[i] - round(ds[i]))) > lim * 10 * widen[i]:
                 bad.append("centre of mass changed when atoms were shifted by lattice vectors")
             if ok_axis[i] and not pbc[i] and abs(float(ds[i])) > lim * 10:
                 bad.append("centre of mass changed when atoms were shifted by lattice vectors")
@@ -594,7 +614,7 @@ def com_predicate(c, r):
             scale = 1.0 + abs(float(to_scaled_x(fc, t)[i]))
             if not ok_axis[i]:
                 continue
-            if pbc[i] and abs(float(ds[i] - round(ds[i]))) > lim * 10 * scale:
+            if pbc[i] and abs(float(ds[i] - round(ds[i]))) > lim * 10 * scale * widen[i]:
                 bad.append("centre of mass does not follow a rigid translation modulo the lattice")
             if not pbc[i] and abs(float(ds[i])) > lim * 10 * scale:
                 bad.append("centre of mass does not follow a rigid translation (non-periodic axis)")
@@ -759,7 +779,7 @@ def run(ctx):
         "det(cell) != 0 (condition number <= 1e4 in the runs, <= 1e3 for get_minimized_cell inputs), 1..10 atoms in runs (theorems: any number)",
         "min_size > 0; the system passed to get_minimized_cell is non-empty",
         "float rounding is outside the model: comparisons through np.linalg.solve / norm use a relative tolerance of 1e-9",
-        "periodic centre of mass: mean resultant non-zero on the axis considered (runs skip axes with |resultant| < 1e-2 of the total mass)",
+        "periodic centre of mass: mean resultant non-zero on the axis considered (runs skip axes with |resultant| < 1e-6 of the total mass and widen the tolerance in proportion to 1e-2 / resultant below 1e-2; one case in five is nearly balanced on purpose)",
     ]
     broken = None
     pres = C.prove_property("C20", [])
